@@ -1,7 +1,7 @@
 (* C11 — proofs about the model: re-exports the parts; short proofs of statements of Properties.v. *)
 From Coq Require Import List NArith Bool Lia.
 From V.C11 Require Import Model.
-From V.C11 Require Export PBase PAlt PInv PIso PLedger PTimer PSend PLazy.
+From V.C11 Require Export PBase PAlt PInv PIso PLedger PTimer PSend PLazy PGate.
 Import ListNotations.
 Open Scope N_scope.
 
@@ -134,6 +134,15 @@ Proof.
   exists s1, s2, s3, ev, cl. subst. repeat split; auto.
 Qed.
 
+Lemma reachable_GInv c s : reachable c s -> GInv s.
+Proof.
+  induction 1 as [|s o s' ev cl R G S]; [apply GInv_init|eapply step_GInv; eauto].
+Qed.
+
+Lemma C11_lazy_queue_lifecycle_only_pf : forall (c : cfg) (cap : nat) (gs : list lop) x,
+  In x (fst (lrun c cap linit gs)) -> Forall not_notif (lq (fst (fst x))).
+Proof. intros c cap gs. apply lrun_nn. constructor. Qed.
+
 Lemma C11_lazy_no_stuck_pf : forall (c : cfg) (cap : nat) (gs : list lop), snd (lrun c cap linit gs) = true.
 Proof. intros. apply lrun_nostuck. apply SInv_init. Qed.
 
@@ -153,3 +162,10 @@ Proof. intros. apply lrun_cap; auto. Qed.
 Definition w_parked : list lop :=
   [LOp (Established 0); LOp (Established 1); LOp (SubIn 1); LOp (HsIn 1 true);
    LOp (CmdOpen 0); LOp (SubOut 0); LOp (HsOut 0 true); LOp (Timer 0); LOp (SubIn 0); LPoll; LPoll].
+
+(* a notification of stream period 0 is still queued in the handle when the user, polling late, is handed
+   Closed and then the Opened of period 1 *)
+Definition w_stale_notif : list lop :=
+  [LOp (Established 0); LOp (CmdOpen 0); LOp (SubOut 0); LOp (HsOut 0 true); LOp (SubIn 0); LOp (HsIn 0 true);
+   LOp (HsIn 0 true); LPoll; LOp (Notify 0); LOp (TaskDie 0 false); LOp (SubIn 0); LOp (HsIn 0 true); LPoll; LPoll;
+   LOp (Validate 0 true); LOp (SubOut 0); LOp (HsOut 0 true); LOp (HsIn 0 true); LPoll; LPoll].
